@@ -100,7 +100,9 @@ def related_net(an, kind, rnd):
     jmap = {j["lab"]: j["lab"] for j in an["J"]}
     emap = {(e["tbl"], e["lab"]): e["lab"] for e in an["E"]}
     rev = []
-    if kind == "iso":
+    if kind == "numba":
+        pass        # the same description; only the engine option differs (set by the caller)
+    elif kind == "iso":
         pool = [3, 17, 48, 49, 50, 51, 99999, 100000, 100001, 7, 64, 2000001]
         labs = rnd.sample(pool, len(an["J"]))
         jmap = {j["lab"]: labs[i] for i, j in enumerate(an["J"])}
@@ -164,7 +166,7 @@ def run_case_related(job):
         rnet = netio.build(bn, fluid=job.get("fluid", "water"), params=p2)
     except Exception as e:  # noqa
         return {"id": job["id"], "skip": "build2:%s" % type(e).__name__}
-    ro = run_pipeflow(rnet, dict(job.get("opts") or {}))
+    ro = run_pipeflow(rnet, dict(job.get("opts") or {}, **(job.get("ropts") or {})))
     case["rnet"] = netio.project(rnet)
     case["routcome"] = ro
     case["rel"] = rel
